@@ -208,8 +208,13 @@ class VC:
         else:
             neg_t = term(neg)
             r = self._sat(neg_t)
+        backend = "z3"
         if r == z3.unknown:
             r = self._validate_candidate(neg_t)
+        if r == z3.unknown:
+            r2 = self._cvc5(neg_t)
+            if r2 is not None:
+                r, backend = r2, "cvc5"
         ms = (time.time() - t0) * 1000
         model = None
         smt2 = None
@@ -231,7 +236,7 @@ class VC:
             self.solver.pop()
             self.run.keep_smt2 -= 1
         res = "unsat" if r == z3.unsat else ("sat" if r == z3.sat else "unknown")
-        ob = Obligation(full, res, ms, model=model, smt2=smt2, info=info)
+        ob = Obligation(full, res, ms, backend=backend, model=model, smt2=smt2, info=info)
         if res == "unknown":
             ob.info["reason"] = self.solver.reason_unknown()
         self.run.obligations.append(ob)
@@ -246,6 +251,36 @@ class VC:
         else:
             self.assume(f)
         return res == "unsat"
+
+    def _cvc5(self, neg_t):
+        """second back end for queries z3 leaves open (strings): the SMT-LIB
+        dump of the same query is given to /usr/bin/cvc5 --strings-exp"""
+        import subprocess
+        import tempfile
+        import os
+        self.solver.push()
+        self.solver.add(neg_t)
+        text = self.solver.to_smt2()
+        self.solver.pop()
+        if "String" not in text and "str." not in text:
+            return None
+        text = "(set-logic ALL)\n" + text
+        fd, path = tempfile.mkstemp(suffix=".smt2")
+        try:
+            with os.fdopen(fd, "w") as f:
+                f.write(text)
+            p = subprocess.run(["/usr/bin/cvc5", "--strings-exp", "--tlimit=20000", path],
+                               capture_output=True, text=True, timeout=40)
+            out = p.stdout.strip().splitlines()
+            if out and out[0] == "unsat":
+                return z3.unsat
+            if out and out[0] == "sat":
+                return z3.sat
+        except Exception:
+            return None
+        finally:
+            os.unlink(path)
+        return None
 
     def _validate_candidate(self, neg_t):
         """z3 answers `unknown (incomplete theory array)` when lambda arrays
